@@ -5,7 +5,9 @@ from vlib import songgen
 
 ID = "C01"
 LEAN_MODULE = "Ctrmml.Properties.C01"
-THEOREMS = None
+THEOREMS = ["C01_fold_sound", "C01_fold_sound_root", "C01_fold_accepts", "C01_fold0_sound", "C01_fold0_accepts",
+            "C01_extract_one_sound", "C01_extract_sound", "C01_extract_accepts", "C01_passes_preserve",
+            "C01_passes_preserve_nodepth", "C01_full_partial"]
 LEVEL = "proof"
 STREAM = "opt.final"
 CHUNK = 150
